@@ -520,7 +520,45 @@ def rule_pack(c, prog):
         c.violation(R, "packed_color3|top-byte", f"cannot analyse decode_packed_color3 on an arbitrary u32: {e}", dec.sp, instance="read:top-byte-ignored")
 
 
+def rule_memo(c, prog, R="C02.memo"):
+    """XML writer: how a property is written is decided from (class, name, value, options) — never from what earlier
+    instances left in the emit state"""
+    c.rule(R, "serialize_instance: no condition in the property loop consults a collection of the emit state (a cache, a visited set) that earlier instances filled: descriptor lookups depend on the class as well as on the name, so a verdict remembered under the name alone (`unknown for one class`) is wrong for the next class that does know the property")
+    fn = prog.fn("rbx_xml::serializer::serialize_instance")
+    COLL = re.compile(r"(HashSet|HashMap|BTreeSet|BTreeMap|Vec|VecDeque|UstrSet|UstrMap|IndexMap)<")
+
+    def peel(ty):
+        ty = ty or ""
+        while ty.startswith("&"):
+            ty = ty[5:] if ty.startswith("&mut ") else ty[1:]
+        return ty
+    conds = []
+    for n in core.walk_fn(fn):
+        if n.get("k") == "If":
+            conds.append(n["c"])
+        elif n.get("k") == "Match" and n.get("src") == "Normal":
+            conds.append(n["e"])
+            conds += [a["guard"] for a in n["arms"] if "guard" in a]
+    bad = []
+    for cnd in conds:
+        for y in core.walk(cnd):
+            if y.get("k") == "MethodCall":
+                r = core.strip(y["recv"])
+                while r.get("k") in ("AddrOf", "Unary"):
+                    r = core.strip(r["e"])
+                if r.get("k") == "Field" and "EmitState" in peel(core.strip(r["e"]).get("ty")) and COLL.search(peel(r.get("ty"))) and y["m"] in ("contains", "contains_key", "get", "insert", "remove", "entry", "is_empty", "len", "iter", "first", "last"):
+                    bad.append((r.get("f"), y["m"], core.loc(y)))
+    c.floor(R, len(conds), 3, "conditions in serialize_instance")
+    if bad:
+        c.violation(R, f"state-dependent|{bad[0][0]}|{bad[0][1]}", f"serialize_instance decides on `state.{bad[0][0]}.{bad[0][1]}(..)`: a collection that earlier instances of other classes filled takes part in how this property is written (a property unknown to one class is then treated as unknown on a class that declares it, and dropped)", bad[0][2], instance="serialize_instance:decisions")
+    else:
+        c.ok(R, "serialize_instance:decisions")
+
+
 def run(c, prog):
+    rule_memo(c, prog)
+    common.rule_configured_db(c, prog, "C02.cfgdb", ("rbx_xml",))
+    common.rule_builders(c, prog, "C02.opts", ("rbx_xml",))
     from . import C01 as _C01
     _C01.rule_codes(core.Alias(c, "C02"), prog)     # Font's number tables, relied upon by this property's Font arm
     rule_pack(c, prog)
